@@ -29,7 +29,9 @@ def apply_writes(mem, writes, width, gran):
     return tuple(mem)
 
 
-def write_options(layout, depth, width, gran, reduced=True, wdata=None):
+def write_options(layout, depth, width, gran, reduced=True, wdata=None, idle_payload=False):
+    """idle_payload: the argument pins also take every value while the port is NOT called (a caller that keeps driving its
+    last argument) -- the reduced alphabet fixes them to 0 in idle cycles"""
     out = [(0, 0)]
     for a in range(depth):
         for d in (range(1 << width) if wdata is None else wdata):
@@ -38,6 +40,8 @@ def write_options(layout, depth, width, gran, reduced=True, wdata=None):
             else:
                 for mk in range(1 << (width // gran)):
                     out.append((1, pack(layout, {"addr": a, "data": d, "mask": mk})))
+    if idle_payload:
+        out += [(0, p) for e, p in out[1:] if p != 0]
     return out
 
 
@@ -63,7 +67,7 @@ class MemBankH(MethodHarness):
             c = self.cfg
             D, W, G = c["depth"], c["width"], c.get("gran")
             wl = self.port["write0"].in_layout
-            wopts = write_options(wl, D, W, G, wdata=c.get("wdata"))
+            wopts = write_options(wl, D, W, G, wdata=c.get("wdata"), idle_payload=c.get("idle_payload", False))
             ch = {}
             for i in range(c["rp"]):
                 ch[f"req{i}"] = [(0, 0)] + [(1, a) for a in range(D)]
@@ -147,6 +151,11 @@ def grid(tier):
         for t, r in flags:
             big.append(({"depth": 2, "width": 4, "gran": 2, "rp": 1, "wp": 1, "transparent": t, "read_on_resp": r,
                          "wdata": [0, 15]}, {"max_depth": 4}))
+        # callers that keep driving their last argument while idle (the reduced alphabet zeroes idle payloads)
+        for t, r in ((False, False), (True, True)):
+            small.append({"depth": 2, "width": 1, "rp": 1, "wp": 2, "transparent": t, "read_on_resp": r, "idle_payload": True})
+            small.append({"depth": 2, "width": 2, "gran": 1, "rp": 1, "wp": 1, "transparent": t, "read_on_resp": r,
+                          "idle_payload": True, "wdata": [0, 3]})
         # the other memory primitives behind the bank (response held over several cycles)
         for t, r in flags:
             small.append({"depth": 2, "width": 1, "rp": 1, "wp": 1, "transparent": t, "read_on_resp": r,
